@@ -134,6 +134,8 @@ def gen_cases(tier: str, verif_seed: int, runs: int | None = None) -> list[dict]
             p = prng()
             cases.append(_base(p, w, prior="junkdir", overwrite=True, fault=dict(kind="overwrite_not_a_cache", what="junkdir")))
             p = prng()
+            cases.append(_base(p, w, prior="junkdir_patchlike", overwrite=True, fault=dict(kind="overwrite_not_a_cache", what="junkdir_patchlike")))
+            p = prng()
             cases.append(_base(p, w, prior="emptydir", overwrite=True, fault=dict(kind="overwrite_not_a_cache", what="emptydir")))
             p = prng()
             cases.append(_base(p, w, prior="file", overwrite=True, fault=dict(kind="overwrite_not_a_cache", what="file")))
